@@ -94,6 +94,18 @@ def BridgeHandover (identityBytes : Nat) (pending afterAnnouncement : List UInt8
 
 instance (n : Nat) (p a : List UInt8) : Decidable (BridgeHandover n p a) := by unfold BridgeHandover; exact inferInstance
 
+/-- "without loss": once a client's bridge exists the relay holds none of its bytes back (`unconsumed` = how many
+    bytes of that client the relay still has buffered right after the step that established the bridge). -/
+def BridgeDrained (unconsumed : Nat) : Prop := unconsumed = 0
+
+/-- "only to its partner", for the step that establishes a bridge: the relay's own reply lines to the connector answer
+    the command lines it sent *before* its identity — at most one each; anything beyond that would be relay text sent
+    to a client whose bridge already exists. -/
+def RepliesBounded (commandLines replyLines : Nat) : Prop := replyLines ≤ commandLines
+
+instance (n : Nat) : Decidable (BridgeDrained n) := by unfold BridgeDrained; exact inferInstance
+instance (a b : Nat) : Decidable (RepliesBounded a b) := by unfold RepliesBounded; exact inferInstance
+
 instance {β : Type} [DecidableEq β] (v : View) (s : Nat) (d : Option β) (o : Obs β) : Decidable (Delivery v s d o) := by
   unfold Delivery; exact inferInstance
 instance {β : Type} (v w : View) (s : Nat) (o : Obs β) : Decidable (Isolation v w s o) := by
